@@ -3,7 +3,7 @@
 use serde_json::json;
 use std::collections::BTreeSet;
 use vcore::evidence::Evidence;
-use vcore::exec::{apply_backend, sequences, std_alphabet, BackendCfg};
+use vcore::exec::{apply_backend, edge_alphabet, sequences, std_alphabet, BackendCfg};
 use vcore::findings::Reporter;
 use vcore::model::{dump_vs_model, Op, RefModel};
 use vcore::{dump_backend, dump_to_json, Dump, Scratch};
@@ -13,6 +13,7 @@ pub struct Outcome {
     pub ops_executed: u64,
     pub restarts: u64,
     pub states: Vec<u64>,
+    pub refused_full: u64,
 }
 
 fn hash_dump(d: &Dump) -> u64 {
@@ -48,7 +49,7 @@ fn classify(msg: &str) -> &'static str {
 pub fn run_history(cfg: &BackendCfg, hist: &[Op], scratch: &Scratch, tag: usize) -> Outcome {
     let dir = scratch.path.join(format!("h{tag}"));
     let _ = std::fs::remove_dir_all(&dir);
-    let mut out = Outcome { violation: None, ops_executed: 0, restarts: 0, states: Vec::new() };
+    let mut out = Outcome { violation: None, ops_executed: 0, restarts: 0, states: Vec::new(), refused_full: 0 };
     let mut model = RefModel::default();
     let mut b = match cfg.open_fresh(&dir) {
         Ok(b) => b,
@@ -136,6 +137,11 @@ pub fn run_history(cfg: &BackendCfg, hist: &[Op], scratch: &Scratch, tag: usize)
                     return out;
                 }
             }
+            // an insert refused because the index holds `capacity` LIVE documents (only possible
+            // with the third id of the edge alphabet) is a legitimate refusal: no effect, go on
+            Err(e) if e.contains("index full") && matches!(op, Op::Ins { .. }) && model.docs.len() >= cfg.capacity => {
+                out.refused_full += 1;
+            }
             Err(e) => {
                 out.violation = Some((
                     format!("C02|unexpected-error|{}", op.short().split('(').next().unwrap_or("op")),
@@ -201,10 +207,15 @@ pub fn run(tier: &str, replay: Option<&str>) -> i32 {
     let mut rep = Reporter::new("C02");
     // shards: (cfg index, first letter)
     let nletters = std_alphabet(2).len();
+    // shards: (cfg index, first letter); first letters >= 1000 belong to the edge-shape pass
+    // (13-letter alphabet, one level shallower)
     let mut shards: Vec<(usize, usize)> = Vec::new();
     for c in 0..cfgs.len() {
         for l in 0..nletters {
             shards.push((c, l));
+        }
+        for l in 0..edge_alphabet(2).len() {
+            shards.push((c, 1000 + l));
         }
     }
     struct ShardOut {
@@ -217,7 +228,8 @@ pub fn run(tier: &str, replay: Option<&str>) -> i32 {
     }
     let results = vcore::par::par_map(&shards, |si, (ci, first)| {
         let cfg = &cfgs[*ci];
-        let alpha = std_alphabet(cfg.dim);
+        let (alpha, depth, first) = if *first >= 1000 { (edge_alphabet(cfg.dim), depth - 1, *first - 1000) } else { (std_alphabet(cfg.dim), depth, *first) };
+        let first = &first;
         let scratch = Scratch::new(&format!("c02s{si}"));
         let mut so = ShardOut { hist: 0, ops: 0, restarts: 0, states: BTreeSet::new(), viol: Vec::new(), multi_restart: 0 };
         for seq in sequences(alpha.len(), depth, &[*first]) {
@@ -265,7 +277,7 @@ pub fn run(tier: &str, replay: Option<&str>) -> i32 {
     ev.set("traces_validated_against_impl", hist);
     ev.set("evaluations", hist);
     ev.set("distinct_nontrivial", multi);
-    ev.set("rule", format!("all {}^{} histories over the 9-letter alphabet (ids {{1,2}}, overwrite, delete, batch delete with duplicate, metadata merge/replace, SNAP, RESTART) per configuration; every RESTART letter and the end of every history is a restart check; non-trivial = histories with >= 2 restart checks; states = distinct canonical collection dumps observed", alpha.len(), depth));
+    ev.set("rule", format!("all {}^{} histories over the 9-letter alphabet (ids {{1,2}}, overwrite, delete, batch delete with duplicate, metadata merge/replace, SNAP, RESTART) per configuration; every RESTART letter and the end of every history is a restart check; non-trivial = histories with >= 2 restart checks; states = distinct canonical collection dumps observed; plus an edge-shape pass one level shallower over a 13-letter alphabet (adds replace-with-empty metadata, an empty batch delete, a batch naming absent ids around a present one, and a third id carrying the same vector as id 1; an insert refused because the index holds capacity live documents is a legitimate refusal)", alpha.len(), depth));
     ev.set("exhaustive", true);
     ev.set("depth", depth as u64);
     ev.set("configurations", cfgs.iter().map(|c| c.label()).collect::<Vec<_>>());
